@@ -302,6 +302,10 @@ impl Envelope {
                     } else {
                         return Some(Err(anyhow::anyhow!("Unexpected outer signature object type.")));
                     }
+                } else {
+                    // A metadata wrapper that is not itself signed is not a
+                    // valid signature object.
+                    return None;
                 }
 
                 let signature_metadata_envelope = signature_object_subject.unwrap_envelope().unwrap();
